@@ -38,6 +38,7 @@ Inductive cw_imode := CwSearch | CwMatch.
 Definition cw_src_mode : cw_imode := match f_cw_ident_whole_match with Some false => CwSearch | _ => CwMatch end.
 Definition cw_chunk_whole : bool := match f_cw_lexer_chunk_whole with Some b => b | None => false end.
 Definition cw_src_import_escaped : bool := match f_cw_import_escaped with Some b => b | None => false end.
+Definition cw_src_number_roundtrip : bool := match f_cw_number_roundtrip with Some b => b | None => false end.
 Definition cw_src_name_exact : bool := match f_cw_service_name_exact with Some b => b | None => false end.
 
 (* ---------------------------------------------------------------- character classes *)
@@ -106,9 +107,19 @@ Definition cw_round6 (ip fp : list N) : list N * list N :=
     if c then let '(i', c') := cw_incr_rev (rev ip) in (if c' then 1 :: rev i' else rev i', rev f')
     else (ip, rev f')
   else (ip, f6).
-Definition cw_emit_number (neg : bool) (ip fp : list N) : cw_bytes :=
-  let '(i, f) := cw_round6 ip fp in
+(* EmitNumber.  rt = false (as pinned): always six decimals, correctly rounded.
+   rt = true (round-trip form): six decimals, and more only while the text would not read back as the same
+   binary64.  The supplied digit lists ARE that text's digits - the shortest fixed notation with at least six
+   decimals that reads back as the double (explicit input, computed independently by the generator and tied by
+   the run) - so the writer prints them, padded with zeros to six decimals. *)
+Definition cw_pad6 (fp : list N) : list N := if Nat.leb (length fp) 6 then cw_take6 fp 6 else fp.
+Definition cw_num_digits_m (rt : bool) (ip fp : list N) : list N * list N :=
+  if rt then (ip, cw_pad6 fp) else cw_round6 ip fp.
+Definition cw_num_digits := cw_num_digits_m cw_src_number_roundtrip.
+Definition cw_emit_number_m (rt : bool) (neg : bool) (ip fp : list N) : cw_bytes :=
+  let '(i, f) := cw_num_digits_m rt ip fp in
   (if neg then [45] else []) ++ map cw_dchar i ++ 46 :: map cw_dchar f.
+Definition cw_emit_number := cw_emit_number_m cw_src_number_roundtrip.
 
 Definition cw_emit_key (m : cw_imode) (k : cw_bytes) : cw_bytes :=
   if cw_mem k cw_writer_keywords then 64 :: k
@@ -573,7 +584,7 @@ Definition cw_key_lexes (k : cw_bytes) : bool :=
 
 Fixpoint cw_expect_value (v : cw_value) : option cw_value :=
   match v with
-  | CwNum neg ip fp => let '(i, f) := cw_round6 ip fp in Some (CwNum neg (cw_norm_digits i) (cw_norm_digits f))
+  | CwNum neg ip fp => let '(i, f) := cw_num_digits ip fp in Some (CwNum neg (cw_norm_digits i) (cw_norm_digits f))
   | CwArr l => match cw_expect_items l with Some l' => Some (CwArr l') | None => None end
   | CwDict d => match cw_expect_entries d with Some d' => Some (CwDict d') | None => None end
   | _ => Some v
